@@ -119,7 +119,12 @@ func Assert(label string, c bool) {
 func Reach(label string) { events = append(events, Event{Kind: "reach", Label: label}) }
 func Stop()              { panic(stop{}) }
 func MapOrder(on bool)   { mapord = on }
-func Symbolic() bool     { return false }
+
+// MapOrderIn makes the order of every map range statement located in a function whose
+// name contains fn a solver-chosen permutation ("" switches it off). Natively Go's own
+// randomisation is used.
+func MapOrderIn(fn string) { mapord = fn != "" }
+func Symbolic() bool       { return false }
 
 // Tier is 0 for the quick tier and 1 for the thorough tier.
 func Tier() int {
